@@ -147,6 +147,11 @@ theorem keys_are_declared_names_partial (evs : List Event) (h : ∀ e ∈ evs, e
   obtain ⟨obj, h1, h2⟩ := keys_in_first_declaration_order evs h
   exact ⟨obj, h1, by rw [h2, stored_names_of_all_stored evs hb]⟩
 
+example : ∀ e ∈ [Event.outAssign "a" (.ok (.num F64.one)) true, .expr (.ok .null),
+      .outIdent "a" (.ok (.num F64.one)) (some (.num F64.one)) true],
+    e.succeeded = true ∧ (e.declaredName.isSome = true → e.stored.isSome = true) := by
+  decide
+
 /-! #### "each holding the value the name had" — false for non-finite numbers -/
 
 /-- full-strength reading for a single declaration of a data value: the emitted member
